@@ -2764,7 +2764,7 @@ impl WasmGenerator {
                 // `GetUpValue` / `SetUpValue` check `indirect_upvalues` to
                 // decide whether an extra dereference is needed.
                 let mut is_indirect = vec![false; upindexes.len()];
-                for (i, (upindex, _)) in upindexes.iter().enumerate() {
+                for (i, (upindex, ty)) in upindexes.iter().enumerate() {
                     let upval_byte_offset = ((1 + i) as u32) * 8;
                     // Push address: base + offset
                     func.instruction(&W::LocalGet(self.alloc_base_local));
@@ -2818,6 +2818,21 @@ impl WasmGenerator {
                             // by pointer and dereferenced at GetUpValue / SetUpValue time.
                             is_indirect[i] = true;
                             self.emit_value_load(upindex, func);
+                        }
+                        mir::Value::Register(reg_idx)
+                            if self.getelement_registers.contains_key(reg_idx)
+                                && ty.word_size() == 1 =>
+                        {
+                            // Any other one-word variable bound by destructuring (e.g. a closure):
+                            // the register is the address of its slot in the tuple; capture the
+                            // contents, as for a single-word direct alloc.
+                            self.emit_value_load(upindex, func);
+                            func.instruction(&W::I32WrapI64);
+                            func.instruction(&W::I64Load(MemArg {
+                                offset: 0,
+                                align: 3,
+                                memory_index: 0,
+                            }));
                         }
                         _ => {
                             // Direct value (non-alloc register, argument, etc.)
